@@ -54,7 +54,9 @@ if not a.nodemo:
     meta["confirmed"]["demo_fails_with_change"]=(rc!=0)
     os.remove(demo_dst)
 sh("git checkout"+EXCL,wt)
-# against /repo
+# against /repo (serialised: several seedchecks may run at once, one per scratch worktree)
+import fcntl
+_lock=open("/tmp/seedcheck.repo.lock","w"); fcntl.flock(_lock,fcntl.LOCK_EX)
 rc,out=sh("git status --porcelain --untracked-files=no","/repo"); assert out.strip()=="",("/repo dirty",out)
 rc,_=step("apply to /repo",f"git -C /repo apply {patch}",None)
 assert rc==0
@@ -81,4 +83,5 @@ json.dump(meta,open(os.path.join(dst,"meta.json"),"w"),indent=1)
 # restore evidence files to the unchanged-tree state
 for prop in [a.prop]+[p for p in a.also.split(',') if p]:
     sh(f"./run.sh {prop} quick","/verif")
+fcntl.flock(_lock,fcntl.LOCK_UN)
 print(a.id,"confirmed:",meta["confirmed"],"detected:",meta["detected"],{k:v["rules"] or v["undecided"] for k,v in det.items()})
